@@ -299,6 +299,9 @@ class _NetSocket:
         if st == "down":
             self.net.wire.append(dict(kind="refused", src=self.src, dst=self.dst, t=self.net.clock.cur))
             raise OSError("link down")
+        if st == "slow":         # a black-holed peer: the connect attempt times out (the sender's outcome is "timeout")
+            self.net.wire.append(dict(kind="refused", src=self.src, dst=self.dst, t=self.net.clock.cur))
+            raise TimeoutError("timed out")
 
     def sendall(self, data):
         st = self.net.link.get((self.src, self.dst), "up")
